@@ -1553,3 +1553,89 @@ Fixpoint fn_resolve (fold : bytes -> bytes) (defs : list bytes) (n : node) : nod
   end.
 
 Definition run_inlines := run_inlines_gen true.
+
+(* ================================================================== reference definitions (parser/mod.rs):
+   parse_reference_inline uses a Subject over the paragraph content (link_label, spnl, skip_line_end) and
+   resolve_reference_link_definitions strips the definitions off the front of the paragraph. *)
+Section RefDefs.
+Variable fold : bytes -> bytes.
+
+(* spnl from p *)
+Definition spnl (inp : bytes) (p : nat) : nat :=
+  let p1 := skip_spaces inp p in
+  let (p2, ok) := skip_line_end inp p1 in
+  if ok then skip_spaces inp p2 else p2.
+
+(* Some (consumed, Some (normalized label, url, title) | None when the label normalizes to empty) *)
+Definition parse_reference_inline (inp : bytes) : res (option (nat * option (bytes * (bytes * bytes)))) :=
+  match link_label inp 0 with
+  | None => Ok None
+  | Some (lab, p) =>
+    match lab with
+    | [] => Ok None
+    | _ =>
+      if negb (peek_eq inp p x3a) then Ok None
+      else
+        let p1 := spnl inp (S p) in
+        do m <- manual_scan_link_url (skipn p1 inp);
+        match m with
+        | None => Ok None
+        | Some (url, ml) =>
+          let beforetitle := p1 + ml in
+          let p3 := spnl inp beforetitle in
+          let title_search := if Nat.eqb p3 beforetitle then None else scan_link_title (skipn p3 inp) in
+          let '(title, p4) :=
+            match title_search with
+            | Some tl => (firstn tl (skipn p3 inp), p3 + tl)
+            | None => ([], beforetitle)
+            end in
+          let p5 := skip_spaces inp p4 in
+          let (p6, ok) := skip_line_end inp p5 in
+          (* the title variable survives the rewind *)
+          let fin :=
+            if ok then Some p6
+            else match title with
+                 | [] => None
+                 | _ => let q := skip_spaces inp beforetitle in
+                        let (q2, ok2) := skip_line_end inp q in
+                        if ok2 then Some q2 else None
+                 end in
+          match fin with
+          | None => Ok None
+          | Some pend =>
+            let nlab := normalize_label fold lab true in
+            match nlab with
+            | [] => Ok (Some (pend, None))
+            | _ =>
+              do cu <- clean_url url;
+              do ct <- clean_title title;
+              Ok (Some (pend, Some (nlab, (cu, ct))))
+            end
+          end
+        end
+    end
+  end.
+
+(* resolve_reference_link_definitions: (remaining content, entries in order of definition) *)
+Fixpoint resolve_refdefs (fuel : nat) (content : bytes) (acc_rev : list (bytes * (bytes * bytes)))
+  : res (bytes * list (bytes * (bytes * bytes))) :=
+  match fuel with
+  | O => OutOfFuel
+  | S f =>
+    match content with
+    | c :: _ =>
+      if beqb c x5b then
+        do r <- parse_reference_inline content;
+        match r with
+        | Some (n, e) =>
+          resolve_refdefs f (skipn n content) (match e with Some x => x :: acc_rev | None => acc_rev end)
+        | None => Ok (content, rev acc_rev)
+        end
+      else Ok (content, rev acc_rev)
+    | [] => Ok (content, rev acc_rev)
+    end
+  end.
+
+Definition refdefs (content : bytes) : res (bytes * list (bytes * (bytes * bytes))) :=
+  resolve_refdefs (S (List.length content)) content [].
+End RefDefs.
